@@ -10,7 +10,7 @@ V = os.path.dirname(os.path.dirname(os.path.abspath(__file__)))
 ID, STATS = sys.argv[1], sys.argv[2]
 SEED = int(os.environ.get('VERIF_SEED', '0') or 0)
 JOBS = int(os.environ.get('VERIF_JOBS', '16'))
-RUNS = int(os.environ.get('VERIF_FUZZ_RUNS', '400000'))
+RUNS = int(os.environ.get('VERIF_FUZZ_RUNS', '1000000'))
 MAXT = int(os.environ.get('VERIF_FUZZ_MAX_SECONDS', '240'))
 
 B, T, R = 'fz_bytes', 'fz_tape', 'fz_reveal'
